@@ -161,7 +161,7 @@ func TestC19(t *testing.T) {
 	// Part 2: reversal. All valid shapes with total hops <= bound.
 	bound := mc.Pick(14, 64)
 	var shapes [][3]int
-	for a := 1; a <= bound; a++ {
+	for a := 1; a <= min(bound, 63); a++ { // a segment length is a 6-bit field
 		shapes = append(shapes, [3]int{a, 0, 0})
 		for b := 1; a+b <= bound; b++ {
 			shapes = append(shapes, [3]int{a, b, 0})
